@@ -102,11 +102,10 @@ theorem zero_complete (a b c u t : ℝ) (hd : Disc a b c = 0) (hu : u ^ 3 = -(Q2
     rw [hts]; linarith
 
 
-/-- three real roots (negative discriminant): the three trigonometric values are pairwise different, so they are all the roots -/
-theorem trig_complete (a b c t : ℝ) (hd : Disc a b c < 0) (ht : t ^ 3 + a * t ^ 2 + b * t + c = 0) :
-    t ∈ trig Real.pi Real.cos Real.arccos a b c (Real.sqrt (MP3 a b * MP3 a b * MP3 a b))
-        (2 * Real.rpow (Real.sqrt (MP3 a b * MP3 a b * MP3 a b)) ((1 : ℝ) / 3)) := by
-  have hsound := trig_sound a b c hd
+/-- three real roots (negative discriminant): the three trigonometric values are pairwise different -/
+theorem trig_three (a b c : ℝ) (hd : Disc a b c < 0) :
+    ∃ r1 r2 r3 : ℝ, trig Real.pi Real.cos Real.arccos a b c (Real.sqrt (MP3 a b * MP3 a b * MP3 a b))
+        (2 * Real.rpow (Real.sqrt (MP3 a b * MP3 a b * MP3 a b)) ((1 : ℝ) / 3)) = [r1, r2, r3] ∧ r1 ≠ r2 ∧ r1 ≠ r3 ∧ r2 ≠ r3 := by
   set r := Real.sqrt (MP3 a b * MP3 a b * MP3 a b) with hr
   set t1 := 2 * Real.rpow r ((1 : ℝ) / 3) with ht1
   -- MP3³ > Q2² ≥ 0
@@ -150,17 +149,22 @@ theorem trig_complete (a b c t : ℝ) (hd : Disc a b c < 0) (ht : t ^ 3 + a * t 
       [t1 * Real.cos (φ / 3) - a / 3, t1 * Real.cos ((φ + 2 * π) / 3) - a / 3, t1 * Real.cos ((φ + 4 * π) / 3) - a / 3] := by
     unfold trig
     simp only [← hx, hclamp, ← hφ]
-  rw [hlist] at hsound ⊢
-  have s0 := hsound (t1 * Real.cos (φ / 3) - a / 3) (by simp)
-  have s1 := hsound (t1 * Real.cos ((φ + 2 * π) / 3) - a / 3) (by simp)
-  have s2 := hsound (t1 * Real.cos ((φ + 4 * π) / 3) - a / 3) (by simp)
   have d01 : t1 * Real.cos (φ / 3) - a / 3 ≠ t1 * Real.cos ((φ + 2 * π) / 3) - a / 3 := by
     intro h; have := mul_lt_mul_of_pos_left c01 ht1pos; linarith
   have d02 : t1 * Real.cos (φ / 3) - a / 3 ≠ t1 * Real.cos ((φ + 4 * π) / 3) - a / 3 := by
     intro h; rw [e2] at h; have := mul_lt_mul_of_pos_left c02 ht1pos; linarith
   have d12 : t1 * Real.cos ((φ + 2 * π) / 3) - a / 3 ≠ t1 * Real.cos ((φ + 4 * π) / 3) - a / 3 := by
     intro h; rw [e2] at h; have := mul_lt_mul_of_pos_left c21 ht1pos; linarith
-  have := three_roots_all a b c _ _ _ t s0 s1 s2 d01 d02 d12 ht
+  exact ⟨_, _, _, hlist, d01, d02, d12⟩
+
+/-- … so they are all the roots -/
+theorem trig_complete (a b c t : ℝ) (hd : Disc a b c < 0) (ht : t ^ 3 + a * t ^ 2 + b * t + c = 0) :
+    t ∈ trig Real.pi Real.cos Real.arccos a b c (Real.sqrt (MP3 a b * MP3 a b * MP3 a b))
+        (2 * Real.rpow (Real.sqrt (MP3 a b * MP3 a b * MP3 a b)) ((1 : ℝ) / 3)) := by
+  have hsound := trig_sound a b c hd
+  obtain ⟨r1, r2, r3, hlist, d01, d02, d12⟩ := trig_three a b c hd
+  rw [hlist] at hsound ⊢
+  have := three_roots_all a b c r1 r2 r3 t (hsound r1 (by simp)) (hsound r2 (by simp)) (hsound r3 (by simp)) d01 d02 d12 ht
   simp only [List.mem_cons, List.mem_nil_iff, or_false]
   exact this
 
@@ -243,5 +247,142 @@ theorem cubicRoots_cardano_complete (p0 p1 p2 p3 : Pt ℝ) (t : ℝ)
         (cubic_cardano_roots Real.pi Real.sqrt Real.cos Real.arccos Real.rpow p0.x p0.y p1.x p1.y p2.x p2.y p3.x p3.y) := by
   rw [C05.cubicRoots_cardano _ _ _ _ _ _ hcode]
   exact C05.polishRoots_keeps_exact _ _ _ _ _ t (cubic_cardano_complete _ _ _ _ _ _ _ _ t hbig hroot) h0 h1 hroot
+
+
+/-! ### the list handed on by the root finder: increasing, without repetition, exactly the roots in (0, 1) -/
+
+/-- the values of the tree that survive a filter are pairwise different, provided no root that passes the filter is a multiple root -/
+theorem cardanoTree_filter_nodup (a b c : ℝ) (p : ℝ → Bool)
+    (hsimple : ∀ t, p t = true → t ^ 3 + a * t ^ 2 + b * t + c = 0 → 3 * t ^ 2 + 2 * a * t + b ≠ 0) :
+    ((cardanoTree Real.pi Real.sqrt Real.cos Real.arccos Real.rpow a b c).filter p).Nodup := by
+  unfold cardanoTree
+  by_cases hd : Disc a b c < 0
+  · rw [if_pos hd, if_neg (not_lt.mpr (Real.sqrt_nonneg _))]
+    obtain ⟨r1, r2, r3, hlist, d01, d02, d12⟩ := trig_three a b c hd
+    rw [hlist]
+    apply List.Nodup.filter
+    simp [d01, d02, d12]
+  rw [if_neg hd]
+  by_cases h0 : Disc a b c = 0
+  · rw [if_pos h0]
+    -- both sub-branches are `zero a u` with u³ = −q/2
+    have key : ∀ u : ℝ, u ^ 3 = -(Q2 a b c) → ((zero a u).filter p).Nodup := by
+      intro u hu
+      unfold zero
+      by_cases hu0 : u = 0
+      · -- triple root −a/3: a multiple root, so it does not pass the filter
+        subst hu0
+        have hq : Q2 a b c = 0 := by linarith [hu, (by ring : (0:ℝ) ^ 3 = 0)]
+        have hp3 : P3 a b = 0 := by
+          have : P3 a b ^ 3 = 0 := by
+            have e : P3 a b ^ 3 = P3 a b * P3 a b * P3 a b := by ring
+            unfold Disc at h0; rw [hq] at h0; rw [e]; linarith
+          exact pow_eq_zero_iff (by norm_num) |>.mp this
+        have hroot : (2 * 0 - a / 3) ^ 3 + a * (2 * 0 - a / 3) ^ 2 + b * (2 * 0 - a / 3) + c = 0 := by
+          have := depress' a b c 0
+          rw [hp3, hq] at this
+          simp only [mul_zero, zero_sub] at this ⊢
+          rw [this]; ring
+        have hder : 3 * (2 * 0 - a / 3) ^ 2 + 2 * a * (2 * 0 - a / 3) + b = 0 := by
+          have : 3 * (2 * 0 - a / 3) ^ 2 + 2 * a * (2 * 0 - a / 3) + b = 3 * (3 * P3 a b) / 3 := by unfold P3; ring
+          rw [this, hp3]; ring
+        have hnp : p (2 * 0 - a / 3) = false := by
+          by_contra hc
+          exact hsimple _ (by simpa using hc) hroot hder
+        have e2 : (-0 - a / 3 : ℝ) = 2 * 0 - a / 3 := by ring
+        simp only [List.filter_cons, e2, hnp, List.filter_nil, Bool.false_eq_true, if_false]
+        exact List.nodup_nil
+      · apply List.Nodup.filter
+        have : 2 * u - a / 3 ≠ -u - a / 3 := by
+          intro h; apply hu0; linarith
+        simp [this]
+    by_cases hq : Q2 a b c < 0
+    · rw [if_pos hq, if_neg (by linarith : ¬ -(Q2 a b c) < 0)]
+      exact key _ (rpow_third_cube (by linarith))
+    · rw [if_neg hq]
+      apply key
+      have := rpow_third_cube (x := Q2 a b c) (le_of_not_gt hq)
+      have e : (-(Real.rpow (Q2 a b c) ((1 : ℝ) / 3))) ^ 3 = -((Real.rpow (Q2 a b c) ((1 : ℝ) / 3)) ^ 3) := by ring
+      rw [e]; show -((Q2 a b c ^ ((1 : ℝ) / 3)) ^ 3) = _; rw [this]
+  · rw [if_neg h0]
+    split_ifs <;> (apply List.Nodup.filter; simp [one])
+
+/-- **what `CubicBezier._findRoots('y')` returns in the Cardano branch is the increasing, repetition-free list of exactly the
+    parameters in (0, 1) at which the y-polynomial vanishes** — provided every root in [0, 1] is simple and neither end is a root.
+    This is the list `C11B.curve_hseg` calls `crossings`. -/
+theorem cubic_root_list (p0 p1 p2 p3 : Pt ℝ)
+    (hcode : cubic_findRoots_dispatch_v p0.x p0.y p1.x p1.y p2.x p2.y p3.x p3.y = 2)
+    (hbig : ¬ |cubic_rootcoeffs_y_d p0.x p0.y p1.x p1.y p2.x p2.y p3.x p3.y| ≤ (1 : ℝ) / 1000000 *
+          max (max |cubic_rootcoeffs_y_a p0.x p0.y p1.x p1.y p2.x p2.y p3.x p3.y| |cubic_rootcoeffs_y_b p0.x p0.y p1.x p1.y p2.x p2.y p3.x p3.y|)
+            |cubic_rootcoeffs_y_c p0.x p0.y p1.x p1.y p2.x p2.y p3.x p3.y|)
+    (hsimple : ∀ t, 0 ≤ t → t ≤ 1 →
+      ((cubic_rootcoeffs_y_d p0.x p0.y p1.x p1.y p2.x p2.y p3.x p3.y * t + cubic_rootcoeffs_y_a p0.x p0.y p1.x p1.y p2.x p2.y p3.x p3.y) * t
+        + cubic_rootcoeffs_y_b p0.x p0.y p1.x p1.y p2.x p2.y p3.x p3.y) * t + cubic_rootcoeffs_y_c p0.x p0.y p1.x p1.y p2.x p2.y p3.x p3.y = 0 →
+      (3 * cubic_rootcoeffs_y_d p0.x p0.y p1.x p1.y p2.x p2.y p3.x p3.y * t + 2 * cubic_rootcoeffs_y_a p0.x p0.y p1.x p1.y p2.x p2.y p3.x p3.y) * t
+        + cubic_rootcoeffs_y_b p0.x p0.y p1.x p1.y p2.x p2.y p3.x p3.y ≠ 0)
+    (h0 : cubic_rootcoeffs_y_c p0.x p0.y p1.x p1.y p2.x p2.y p3.x p3.y ≠ 0)
+    (h1 : cubic_rootcoeffs_y_d p0.x p0.y p1.x p1.y p2.x p2.y p3.x p3.y + cubic_rootcoeffs_y_a p0.x p0.y p1.x p1.y p2.x p2.y p3.x p3.y
+        + cubic_rootcoeffs_y_b p0.x p0.y p1.x p1.y p2.x p2.y p3.x p3.y + cubic_rootcoeffs_y_c p0.x p0.y p1.x p1.y p2.x p2.y p3.x p3.y ≠ 0) :
+    let L := Inter.curveLineT Real.sqrt (Seg.cubic p0 p1 p2 p3)
+      (cubic_cardano_roots Real.pi Real.sqrt Real.cos Real.arccos Real.rpow p0.x p0.y p1.x p1.y p2.x p2.y p3.x p3.y)
+    L.Pairwise (· < ·) ∧ (∀ t ∈ L, 0 < t ∧ t < 1) ∧
+      ∀ t, 0 < t → t < 1 →
+        ((((cubic_rootcoeffs_y_d p0.x p0.y p1.x p1.y p2.x p2.y p3.x p3.y * t + cubic_rootcoeffs_y_a p0.x p0.y p1.x p1.y p2.x p2.y p3.x p3.y) * t
+          + cubic_rootcoeffs_y_b p0.x p0.y p1.x p1.y p2.x p2.y p3.x p3.y) * t + cubic_rootcoeffs_y_c p0.x p0.y p1.x p1.y p2.x p2.y p3.x p3.y = 0) ↔ t ∈ L) := by
+  intro L
+  set A := cubic_rootcoeffs_y_a p0.x p0.y p1.x p1.y p2.x p2.y p3.x p3.y with hA
+  set B := cubic_rootcoeffs_y_b p0.x p0.y p1.x p1.y p2.x p2.y p3.x p3.y with hB
+  set C := cubic_rootcoeffs_y_c p0.x p0.y p1.x p1.y p2.x p2.y p3.x p3.y with hC
+  set D := cubic_rootcoeffs_y_d p0.x p0.y p1.x p1.y p2.x p2.y p3.x p3.y with hD
+  set cd := cubic_cardano_roots Real.pi Real.sqrt Real.cos Real.arccos Real.rpow p0.x p0.y p1.x p1.y p2.x p2.y p3.x p3.y with hcd
+  have hD0 : D ≠ 0 := by
+    intro h; apply hbig; rw [h, abs_zero]; positivity
+  have hL : L = Inter.sortK (Inter.cubicRoots Real.sqrt p0 p1 p2 p3 cd) := rfl
+  have hmem : ∀ t, t ∈ L ↔ t ∈ Inter.cubicRoots Real.sqrt p0 p1 p2 p3 cd := fun t => by rw [hL, C05.mem_sortK]
+  -- sound and complete
+  have hsound : ∀ t ∈ L, (0 ≤ t ∧ t ≤ 1) ∧ ((D * t + A) * t + B) * t + C = 0 := fun t ht =>
+    Cardano.cubicRoots_cardano_sound p0 p1 p2 p3 t hcode ((hmem t).mp ht)
+  have hcomplete : ∀ t, 0 ≤ t → t ≤ 1 → ((D * t + A) * t + B) * t + C = 0 → t ∈ L := fun t a0 a1 hr =>
+    (hmem t).mpr (cubicRoots_cardano_complete p0 p1 p2 p3 t hcode hbig a0 a1 hr)
+  have hopen : ∀ t ∈ L, 0 < t ∧ t < 1 := by
+    intro t ht
+    obtain ⟨⟨a0, a1⟩, hr⟩ := hsound t ht
+    constructor
+    · apply lt_of_le_of_ne a0
+      rintro rfl
+      apply h0; simpa using hr
+    · apply lt_of_le_of_ne a1
+      rintro rfl
+      apply h1; linarith [hr]
+  refine ⟨?_, hopen, ?_⟩
+  · -- strictly increasing = sorted + no repetition
+    have hsorted : L.Pairwise (· ≤ ·) := by rw [hL]; exact C05.sortK_sorted _
+    have hnodup : L.Nodup := by
+      rw [hL, C05.cubicRoots_cardano _ _ _ _ _ _ hcode]
+      unfold Inter.polishRoots Inter.sortK
+      rw [List.Perm.nodup_iff (List.mergeSort_perm _ _), List.Perm.nodup_iff (List.mergeSort_perm _ _)]
+      -- every closed-form value is an exact root, so polishing does not move it
+      have hfix : cd.map (Inter.polish A B C D) = cd := by
+        conv_rhs => rw [← List.map_id cd]
+        apply List.map_congr_left
+        intro x hx
+        exact C05.polish_fix A B C D x (Cardano.cubic_cardano_sound _ _ _ _ _ _ _ _ x hx)
+      rw [hfix, hcd, cubic_cardano_eq_tree, if_neg hbig]
+      apply cardanoTree_filter_nodup
+      intro t hp hr
+      simp only [Bool.and_eq_true, decide_eq_true_eq] at hp
+      have hr' : ((D * t + A) * t + B) * t + C = 0 := by
+        have e : ((D * t + A) * t + B) * t + C = D * (t ^ 3 + A / D * t ^ 2 + B / D * t + C / D) := by field_simp
+        rw [e, hr, mul_zero]
+      have := hsimple t hp.1 hp.2 hr'
+      intro hder
+      apply this
+      have e : (3 * D * t + 2 * A) * t + B = D * (3 * t ^ 2 + 2 * (A / D) * t + B / D) := by field_simp
+      rw [e, hder, mul_zero]
+    exact (List.pairwise_and_iff.mpr ⟨hsorted, hnodup⟩).imp (fun h => lt_of_le_of_ne h.1 h.2)
+  · intro t t0 t1
+    constructor
+    · intro hr; exact hcomplete t (le_of_lt t0) (le_of_lt t1) hr
+    · intro ht; exact (hsound t ht).2
 
 end CardanoC
